@@ -8,6 +8,7 @@ import ZorgVerif.Gen.FileLexer
 import ZorgVerif.Gen.QueryLexer
 import ZorgVerif.Model.Query
 import ZorgVerif.Model.Sql
+import ZorgVerif.Model.Exec
 /-! Line protocol: one JSON request per line on stdin, one JSON answer per line on stdout. -/
 open Lean ZorgVerif
 
@@ -275,6 +276,34 @@ def handleFilter (op : String) (j : Json) : Except String Json := do
     pure (Json.arr outs.toArray)
   | _ => throw s!"unknown op {op}"
 
+def xnoteOf (j : Json) : Except String Exec.XNote := do
+  pure { text := (← strOf j "text").toList, path := (← strOf j "path").toList, line := ← j.getObjValAs? Nat "line",
+         typeLabel := (← strOf j "typeLabel").toList, priority := (← strOf j "priority").toList,
+         cdate := (← strOf j "cdate").toList, mdate := (← strOf j "mdate").toList,
+         areas := ← strListOf j "areas", contexts := ← strListOf j "contexts", people := ← strListOf j "people",
+         projects := ← strListOf j "projects", links := ← strListOf j "links",
+         props := ← varsOf (← j.getObjVal? "props"), sect := (← strOf j "section").toList }
+
+partial def treeJson : Exec.Tree → Json
+  | .leaf ns => Json.mkObj [("leaf", Json.arr (ns.map (fun n => jstr n.text)).toArray)]
+  | .node cs => Json.mkObj [("node", Json.arr (cs.map (fun (k, t) => Json.arr #[jstr k, treeJson t])).toArray)]
+
+def handleExec (op : String) (j : Json) : Except String Json := do
+  match op with
+  | "exec.run" =>
+    let ns ← (← arrOf j "notes").toList.mapM xnoteOf
+    let today ← dateOf j "today"
+    let dflt ← QJ.defaults
+    let q ← strOf j "query"
+    let toks := Lex.lex Gen.QueryLexer.rules q.toList
+    if toks.any (fun t => t.name == "<err>") then pure (Json.mkObj [("err", "lexer")])
+    else match Query.parseToks dflt today toks with
+      | .error _ => pure (Json.mkObj [("err", "parse")])
+      | .ok qq =>
+        if qq.groupBy.length > 4 then pure (Json.mkObj [("err", "too many groups")])
+        else pure (Json.mkObj [("text", jstr (Exec.exec qq ns)), ("tree", treeJson (Exec.execTree qq ns))])
+  | _ => throw s!"unknown op {op}"
+
 def handle (line : String) : Json :=
   match Json.parse line with
   | .error e => Json.mkObj [("driver_error", s!"parse: {e}")]
@@ -290,6 +319,7 @@ def handle (line : String) : Json :=
         else if op.startsWith "lex." then handleLex op j
         else if op.startsWith "query." then handleQuery op j
         else if op.startsWith "filter." then handleFilter op j
+        else if op.startsWith "exec." then handleExec op j
         else .error s!"unknown op {op}"
       match r with
       | .ok v => v
